@@ -18,8 +18,20 @@ psf_memset (void *s, int c, sf_count_t len)
 		return s ;
 	VASSERT (V_W_OK (s, len), "psf_memset: destination writable for len bytes") ;
 	VASSERT (len <= PSF_MEMSET_MAX, "psf_memset: len within the harness bound PSF_MEMSET_MAX") ;
+#ifdef PSF_MEMSET_ELEM
+	/* typed variant: every psf_memset in the harness' scope zero-fills whole elements of this
+	** type (asserted); element stores avoid byte-granular updates of the BUF_UNION staging area */
+	VASSERT (c == 0 && len % sizeof (PSF_MEMSET_ELEM) == 0, "psf_memset model (typed variant): zero-fill of whole elements") ;
+	{	PSF_MEMSET_ELEM *e = (PSF_MEMSET_ELEM *) s ;
+		for (i = 0 ; i < PSF_MEMSET_MAX / (sf_count_t) sizeof (PSF_MEMSET_ELEM) ; i++)
+			if (i * (sf_count_t) sizeof (PSF_MEMSET_ELEM) < len)
+				e [i] = 0 ;
+		return s ;
+		} ;
+#else
 	for (i = 0 ; i < PSF_MEMSET_MAX ; i++)
 		if (i < len)
 			p [i] = (unsigned char) c ;
 	return s ;
+#endif
 }
